@@ -101,9 +101,24 @@ CHECKS = [
         "closure/destroy application (_apply_annotations_param_callback...) not yet under contract; int(str) on canonical "
         "decimals only.", "DESIGN.md section 4 C01"),
     chk("C11", "Counting half: MessageLogger.log and every module-level logging entry point increment the diagnostic counter "
-        "exactly once on every exit (suppressed, printed, SystemExit for fatal).",
-        "Trusted: givc, schema, MessageLogger.get singleton, Position.format. Parser exception-freedom, positions and the "
-        "warn_fatal gate are not yet under contract.", "DESIGN.md section 4 C11"),
+        "exactly once on every exit (suppressed, printed, SystemExit for fatal). Parser half, annotation level: "
+        "_parse_annotations / _parse_annotation / the option parsers / _parse_fields raise nothing on any text, a malformed "
+        "annotation list yields success=False with nothing returned and at least one diagnostic, and the annotations parsed so far "
+        "(the object passed in) are never modified - a failing continuation line is ignored rather than half-applied.",
+        "Trusted: givc, schema, MessageLogger.get singleton, Position.format, str.split/strip/lower/isspace as uninterpreted "
+        "functions. The line state machine of parse_comment_block, positions/carets and the warn_fatal gate are not under contract; "
+        "list mode of _parse_annotations (parse_options=False) is excluded by precondition.", "DESIGN.md section 4 C11"),
+    chk("C10", "Annotation level of the comment-block grammar on the real parser functions: every parenthesised group is handed to "
+        "_parse_annotation as exactly the text between its parentheses (stripped) with its source column; the annotation name is the "
+        "first word lower-cased (deprecated spellings mapped), list annotations get their options as the space-separated list in "
+        "order, (array)/(attributes) as key=value pairs where each key maps to the value of its last item (None for a bare key) and "
+        "no other key is present, unknown annotations keep their option text; _parse_fields hands the field to _parse_annotations "
+        "unchanged.",
+        "Trusted: givc, str.split/strip/lower/replace/isspace and ''.join as uninterpreted functions (join with its defining "
+        "equation at append). NOT under contract: the line state machine parse_comment_block and its 15 regular expressions "
+        "(identifier, parameters, tags, description paragraphs, continuation lines, line endings), the comment writer and the "
+        "write/parse round trip; relation between the returned options of the option parsers and the stored annotation value is by "
+        "call discipline only.", "DESIGN.md section 4 C10"),
     chk("C13", "Contract on the real Transformer._create_const: typing clauses and the unsigned-wrap range clause are "
         "integer/string VCs discharged for all symbols; counter-models are replayed natively.",
         "Trusted: givc, schema, assumed contracts for _strip_symbol/_create_type_from_base/_resolve_type_from_ctype/"
@@ -129,7 +144,6 @@ CHECKS = [
 
 NA_ALL = {
  "C06": "needs a byte-level memory model and GLib contracts for ~7k lines of C (girparser.c, girnode.c, girmodule.c); no C verifier installed and the code cannot be built here",
- "C10": "the annotation tokenizer and the line state machine (500 lines driven by 15 regular expressions) were not brought under contract; no partial claim is made (DESIGN.md section 9)",
  
  "C15": "acceptance by the typelib compiler is a statement about the girparser.c state machine (same obstacle as C06); a producer-side contract cannot express it",
  "C16": "determinism is a 2-safety property; the commutativity / self-composition obligations were not built; no claim is made (DESIGN.md section 9)",
